@@ -68,16 +68,14 @@ def path_term(body, fmt_call_bb=None, which=0):
             return True
         return s[0] == "field" and s[2] == "0" and s[1][0] == "variant" and s[1][2] == "Some" and term_has_call(s, "Iterator::next") \
             and term_has_call(s, f"{AB}::manual::Service::methods") and mentions_param(s, "service")
-    tpl = decode_format_template(const_of(o.of_operand(c.args[0])))
-    arr = strip_identity(o.of_operand(c.args[1]))
+    return c, _decode_format(body, o, o.of_operand(c.args[0]), o.of_operand(c.args[1]), item_ok, 0)
+
+
+def _decode_format(body, o, tpl_t, arr_t, item_ok, depth):
+    tpl = decode_format_template(const_of(tpl_t))
+    arr = strip_identity(arr_t)
     if tpl is None or not (arr[0] == "agg" and arr[1] == "array"):
         raise Undecidable(f"{body.path}: unsupported format! template")
-    # argument operands: locals of the array aggregate -> Argument::new_display calls
-    arr_stmt = None
-    for bl in body.blocks:
-        for s in bl["s"]:
-            if s["k"] == "assign" and s["rv"]["k"] == "agg" and s["rv"]["ak"] == "array" and o.of_rvalue(s["rv"]) == arr:
-                arr_stmt = s
     pieces = []
     k = 0
     for p in tpl:
@@ -90,6 +88,11 @@ def path_term(body, fmt_call_bb=None, which=0):
             raise Undecidable(f"{body.path}: format argument {show(a)[:40]}")
         val = a[2][0]
         sv = strip_identity(val)
+        # a String built by an earlier format! in the same function (a hoisted, loop-invariant part): spliced in place
+        inner = strip_identity(val, extra=("hint::must_use", "alloc::fmt::format", "string::String::as_str", "ToString::to_string", "Deref::deref"))
+        if depth < 3 and inner[0] == "call" and name_matches(inner[1], "fmt::Arguments::new") and len(inner[2]) >= 2:
+            pieces.extend(_decode_format(body, o, inner[2][0], inner[2][1], item_ok, depth + 1))
+            continue
         if sv[0] == "phi":
             # the local holding the conditional string
             call = body.call_at(a[3])
@@ -121,7 +124,7 @@ def path_term(body, fmt_call_bb=None, which=0):
             pieces.append(("D" if okc and ite[2] == '""' and ite[3] == '"."' else f"?ite({show(cond)[:30]},{ite[2]},{ite[3]})"))
         else:
             pieces.append(canon_piece(body, o, val, item_ok))
-    return c, pieces
+    return pieces
 
 
 def ident_term(body, o, t):
@@ -161,9 +164,24 @@ def run(cx):
     client_path = server_path = name_pieces = None
     with cx.ob("C17.1", "R-SIBLING", "generator: client route ≡ server route ≡ \"/\" P D S \"/\" M; SERVICE_NAME ≡ P D S; router pattern ≡ \"/\" name \"/*rest\"") as ob:
         gm = cx.body(f"{AB}::client::generate_methods")
-        c1, client_path = path_term(gm)
+        def route_format(b_):
+            """the format! that mentions the method (a hoisted `<package>.<service>` part is a different, nested format!)"""
+            n_ = len([c for c in b_.calls_to("core::fmt::Arguments::new") if not b_.is_cleanup(c.bb)])
+            first = None
+            for i_ in range(n_):
+                try:
+                    r_ = path_term(b_, which=i_)
+                except (AnchorLost, Undecidable):
+                    continue
+                first = first or r_
+                if "M" in r_[1] or "Mname" in r_[1]:
+                    return r_
+            if first is None:
+                raise AnchorLost(f"route format! in {b_.path}")
+            return first
+        c1, client_path = route_format(gm)
         gr = cx.body(f"{AB}::server::generate_method_routes")
-        c2, server_path = path_term(gr)
+        c2, server_path = route_format(gr)
         sg = cx.body(f"{AB}::server::generate")
         c3, name_pieces = path_term(sg, which=len([c for c in sg.calls_to("core::fmt::Arguments::new") if not sg.is_cleanup(c.bb)]) - 1)
         # the service-name format is the one whose result goes to generate_transport
@@ -494,6 +512,13 @@ def run(cx):
             if name_matches(c.fn, "iter::traits::collect::Extend::extend"):
                 ok = on_response_headers(o.of_operand(c.args[0])) and mentions_field(o.of_operand(c.args[1]), "headers") and mentions_param(o.of_operand(c.args[1]), "self")
                 return "extend(self.headers)" if ok else "extend(?)"
+            if loop_inserts and name_matches(c.fn, ("Iterator::next", "hash::map::IntoIter")) and term_has_call(o.of_operand(c.args[0]), "IntoIterator::into_iter"):
+                return None             # loop control of that iteration
+            if name_matches(c.fn, "IntoIterator::into_iter") and loop_inserts:
+                a0 = o.of_operand(c.args[0])
+                return "extend(self.headers)" if mentions_field(a0, "headers") and mentions_param(a0, "self") else "iterate(?)"
+            if name_matches(c.fn, f"{HM}::insert") and c in loop_inserts:
+                return None             # the body of `for (k, v) in self.headers { headers.insert(k, v) }` == extend(self.headers), named at the into_iter
             if name_matches(c.fn, f"{HM}::insert"):
                 k = strip_identity(o.of_operand(c.args[1]))
                 v = o.of_operand(c.args[2])
@@ -505,6 +530,20 @@ def run(cx):
                     return None
                 return f"mutate:{c.fn.split('::')[-1]}"
             return f"call:{c.fn.split('::')[-1]}" if c.fn else "call:?"
+
+        # `for (k, v) in self.headers { response.headers_mut().insert(k, v) }`: an insert inside a loop whose key and value are
+        # the two halves of the element of an iteration over self.headers
+        io_ = Origins(ib)
+        cyc_ = ib.cyclic_blocks()
+        loop_inserts = []
+        for c_ in ib.calls():
+            if c_.bb in cyc_ and name_matches(c_.fn, f"{HM}::insert") and not ib.is_cleanup(c_.bb):
+                k_, v_ = strip_identity(io_.of_operand(c_.args[1])), strip_identity(io_.of_operand(c_.args[2]))
+                def half(t_, i_):
+                    return t_[0] == "field" and t_[2] == str(i_) and term_has_call(t_, "Iterator::next") and term_has_call(t_, "IntoIterator::into_iter") \
+                        and mentions_field(t_, "headers") and mentions_param(t_, "self")
+                if on_response_headers(io_.of_operand(c_.args[0])) and half(k_, 0) and half(v_, 1):
+                    loop_inserts.append(c_)
 
         def stmt_sym(bbi, s, o):
             lhs = s["lhs"]
@@ -537,7 +576,7 @@ def run(cx):
         sb = cx.impl_method("anemo::types::response::StatusCode", "IntoResponse", "into_response")
         so = Origins(sb)
         wr = [s for bl in sb.blocks if not bl.get("cleanup") for s in bl["s"] if s["k"] == "assign" and isinstance(s["lhs"], dict) and "*" in s["lhs"]["p"]]
-        ok = len(wr) == 1 and term_has_call(so.of_local(wr[0]["lhs"]["l"]), "Response::status_mut") and is_param(strip_identity(so.of_rvalue(wr[0]["rv"])), "self")
+        ok = sets_status_to_self(prog, sb)
         ob.require(ok, "statuscode-into-response/sets-status", "StatusCode::into_response does not store self as the response status", sb.path)
         # from_response: Status { status: parts.status, headers: parts.headers, message: headers.get(STATUS_MESSAGE).cloned(), .. }
         fo = Origins(fb)
